@@ -383,6 +383,7 @@ func runC01(c *core.Ctx) {
 	checkSourceAdvance(c)
 	checkLastIndex(c)
 	checkDispatchErrorToken(c)
+	checkNestingDepth(c, "tok.depth", "parser", "Parser")
 	if os.Getenv("FV_LIST_SCAN") != "" {
 		listScanSteps(c)
 	}
